@@ -115,6 +115,13 @@ L['C12'] = dict(modules=['Schc.Properties.C12'], level='proof', technique='Lean 
               T('C12_same_behaviour', 'full', 'any function of the context (manager compress / decompress / matching) gives the same result on the reloaded context'),
               T('C12_pyEq', 'full', 'the reloaded context compares equal under the library\'s __eq__ methods')],
     level_text='Proved for all buffers (any length, alignment, side) and all contexts whose mappings are invertible (distinct values, prefix-free indices) and whose no-compression rules carry no descriptors. Equality is literal in a model that keeps everything the code can observe, so equal behaviour is congruence. Trusted: json.dumps/json.loads on a tree of dict/list/str/int; that enum members reloaded as plain str are only compared with == / in (watched by the json stream, which drives original and reloaded contexts through the real manager and compares SCHC packets and decompressed packets). FieldDescriptor / HeaderDescriptor / PacketDescriptor round trips are modelled and compared by correspondence; their theorems are the Buffer theorem applied fieldwise and are not separately stated.')
+
+L['C13'] = dict(modules=['Schc.Properties.C13'], level='proof', technique='Lean 4 refinement of the byte-level Buffer model (constructor, shift loops, re-padding) to bit lists',
+    theorems=[T('C13_canonical', 'full', 'every Buffer the constructor returns is the canonical Buffer of its bits, for ANY content'),
+              T('C13_eq_iff', 'full', '== is bit equality for all four padding-side combinations; operand untouched'),
+              T('C13_hash', 'full', 'equal Buffers hash alike (the hashed key is a function of the bits alone)'),
+              T('C13_dict', 'full', 'dict lookup through any equal key'), T('C13_mapping_lookup', 'full', 'match-mapping lookups succeed across padding sides')],
+    level_text='Proved for all bit strings of any length on both sides: the byte-level model of __eq__ (length test, re-pad copy through the carry loops of _shift_left/_shift_right, content compare) and of __hash__ is bit equality / a function of the bits. Python dicts are modelled as association lists looked up by hash-then-eq; 64-bit hash collisions between different contents are abstracted away (DESIGN.md §7).')
 for k in L:
     L[k]['level_note'] = NOTE
     L[k]['design_ref'] = 'DESIGN.md §6 ' + k
